@@ -1,6 +1,6 @@
 """Which rules exist, which properties are claimed, their floors and evidence texts."""
 
-RULE_MODULES = ['descent', 'null', 'live', 'gate', 'alloc', 'immobile', 'reset', 'pool', 'stale', 'layer', 'twin', 'listsearch', 'steps', 'segflow', 'unchecked', 'panicsite', 'links']
+RULE_MODULES = ['descent', 'null', 'live', 'gate', 'alloc', 'immobile', 'reset', 'pool', 'stale', 'layer', 'twin', 'listsearch', 'steps', 'segflow', 'unchecked', 'panicsite', 'links', 'entity']
 
 # rules whose instance set legitimately differs between debug and release-like MIR
 CONFIG_DEPENDENT_RULES = {'PANICSITE'}
@@ -49,16 +49,24 @@ mutably for its whole life [SEGFLOW, LIVE]. Not decided: the mask arithmetic (C1
 prop('C04', """
 Static analysis (MIR/SSA). Decided clauses: lookup, the lookup inside delete, and the insert descent of MapTree have
 the EXACT / EXACT / INSERT decision tables [DESCENT]; delete reaches the removal only under 'found' and no link is
-dereferenced unguarded on the delete path [NULL].""",
-     ["C02", "C11"],
-     {'DESCENT': 3, 'NULL': 40})
+dereferenced unguarded on the delete path [NULL]; every payload write is a whole-entity assignment: insertion stores its
+argument into the fresh slot, the removal overwrites the removed slot with the whole entity of exactly one other slot,
+which is the slot it releases; no &mut to a stored entity escapes except through value_by_index_mut; is_empty is
+root == EMPTY_REF and root is written only by the constructor, the root insert, replace_parents_child, the removal and
+clear [ENTITY, POOL]; clear returns every slot and only the pool's recognised operations touch its vectors [POOL].""",
+     ["C02"],
+     {'DESCENT': 3, 'NULL': 40, 'ENTITY': 5, 'POOL': 2})
 
 prop('C05', """
 Static analysis (MIR/SSA). Decided clauses: lookup, the lookup inside delete, and the insert descent of SetTree
 (comparing through KeyValue::key of the stored value) have the EXACT / EXACT / INSERT decision tables [DESCENT];
-delete reaches the removal only under 'found' and no link is dereferenced unguarded on the delete path [NULL].""",
-     ["C02", "C11"],
-     {'DESCENT': 3, 'NULL': 40})
+delete reaches the removal only under 'found' and no link is dereferenced unguarded on the delete path [NULL]; every
+payload write is a whole-value assignment: insertion stores its argument into the fresh slot, the removal overwrites
+the removed slot with the whole value of exactly one other slot, which is the slot it releases, so payloads are never
+mixed between keys [ENTITY, POOL]; is_empty is root == EMPTY_REF with a closed set of root writers [ENTITY]; clear
+returns every slot and only the pool's recognised operations touch its vectors [POOL].""",
+     ["C02"],
+     {'DESCENT': 3, 'NULL': 40, 'ENTITY': 5, 'POOL': 2})
 
 prop('C06', """
 Static analysis (MIR/SSA). Decided clause (complete for the loop, given the search-tree invariant): the exact-lookup
